@@ -1,5 +1,7 @@
 """C12 clean removes exactly what the last build created."""
 from .common import run_histories, signature, detail, case_of, account_build
+from ..env import Scratch
+from ..world import World
 
 CONFIG = {
     'level': 'exploration',
@@ -12,7 +14,7 @@ CONFIG = {
              'build (result, tree, every function invoked); real clean steps are part of the '
              'histories too; evaluations = clean calls judged; distinct_nontrivial = distinct '
              '(program shape, step kinds before the clean)'),
-    'gates': ['cache_dir_cleans', 'clean_probes', 'clean_after_rollback', 'clean_twice', 'build_after_clean',
+    'gates': ['prefix_clean_cases', 'cache_dir_cleans', 'clean_probes', 'clean_after_rollback', 'clean_twice', 'build_after_clean',
               'ev:os.rmdir|clean', 'ev:os.remove|clean'],
 }
 
@@ -127,8 +129,54 @@ def cache_dir_cases(sh):
                     break
 
 
+def prefix_and_vanished_dir_cases(sh):
+    """clean with created directories whose names are string prefixes of one another (out / out2, a / a.b,
+    d / 'd d') while the longer-named one cannot be removed (a foreign file was planted in it), or with a
+    nested created directory that was deleted externally before clean: every other created directory is
+    still removed (a directory that cannot be removed says nothing about its siblings or its parent)"""
+    funcs = {'G': {'kind': 'bf', 'idx': 5, 'body': [['write', 'g']]}}
+    for short, long_ in (('out', 'out2'), ('a', 'a.b'), ('d', 'd d'), ('x/y', 'x/y2')):
+        for variant in ('plant-in-long', 'plant-in-short', 'delete-nested', 'none'):
+            for nbuilds in (1, 2):
+                root = [['bf', short + '/s/f', 'G', {'catch': False}], ['bf', long_ + '/l/f', 'G', {'catch': False, 'args': [1]}]]
+                program = {'funcs': funcs, 'roots': [root]}
+                with Scratch('p') as sc:
+                    w = World(sc)
+                    w.ext_write('keep/foreign', b'unrelated foreign file')
+                    bad = False
+                    for _ in range(nbuilds):
+                        sr = w.build(program, root, {}, label=0)
+                        if sr.divs:
+                            bad = True
+                            break
+                    if bad:
+                        continue
+                    if variant == 'plant-in-long':
+                        w.ext_write(long_ + '/zz', b'foreign')
+                    elif variant == 'plant-in-short':
+                        w.ext_write(short + '/zz', b'foreign')
+                    elif variant == 'delete-nested':
+                        w.ext_delete(short + '/s')
+                    c = w.clean()
+                    sh.evaluations += 1
+                    sh.count('prefix_clean_cases')
+                    sh.nt(('prefix-clean', short, variant, nbuilds))
+                    for d in c.divs:
+                        if d['kind'] in KINDS:
+                            sh.violation(signature(d) + '|prefix-siblings|' + variant, detail(d), case_of(w, program))
+                            break
+                    else:
+                        c2 = w.clean()
+                        for d in c2.divs:
+                            if d['kind'] in KINDS:
+                                sh.violation(signature(d) + '|prefix-siblings|second-clean', detail(d), case_of(w, program))
+                                break
+
+
 def run_shard(sh):
     cache_dir_cases(sh)
+    if sh.idx % 4 == 2:
+        prefix_and_vanished_dir_cases(sh)
     from .swapcases import run_swap_cases
     run_swap_cases(sh, lambda d: d['kind'] in KINDS and d.get('phase', 'clean') == 'clean', 'C12',
                    nested_cache=sh.idx % 2 == 1)
